@@ -273,6 +273,27 @@ def evaluate(text):
             return False, None
 
 
+def _real_pow_with_complex_result(text):
+    """`(-2.0) ** 0.5`: CPython gives a complex; on this tree ConstantFolding builds FloatNode(value=str(complex)) and the
+    compiler crashes (a C43 matter) - one such expression would take its whole module with it, so they are not drawn"""
+    import ast
+    try:
+        tree = ast.parse(text, mode='eval')
+    except SyntaxError:
+        return False
+    for node in ast.walk(tree):
+        if isinstance(node, ast.BinOp) and isinstance(node.op, ast.Pow):
+            try:
+                l = eval(compile(ast.Expression(node.left), '<e>', 'eval'), {'__builtins__': {}}, {})
+                r = eval(compile(ast.Expression(node.right), '<e>', 'eval'), {'__builtins__': {}}, {})
+                v = l ** r
+            except Exception:
+                continue
+            if isinstance(v, complex) and not isinstance(l, complex) and not isinstance(r, complex):
+                return True
+    return False
+
+
 def generate(rng, n, pool_bias=0.5):
     """n expressions (text) accepted by CPython; duplicates in text are intentional (pooling)"""
     out = []
@@ -289,6 +310,8 @@ def generate(rng, n, pool_bias=0.5):
         if len(e) > 6000:
             continue
         ok, _ = evaluate(e)
+        if ok and '**' in e and _real_pow_with_complex_result(e):
+            continue
         if ok:
             out.append(e)
     return out
